@@ -121,6 +121,14 @@ func openStorage(dir string, opt Options) (*storage, error) {
 	if s.log, err = log.Open(filepath.Join(dir, "log"), 0700, logOpt); err != nil {
 		return nil, err
 	}
+	if s.log.LastIndex() < s.snaps.index {
+		// we died after storing a snapshot received from leader,
+		// but before the log was reset to it. snapshot covers all
+		// entries in the log. so finish the reset
+		if err = s.log.Reset(s.snaps.index); err != nil {
+			return nil, opError(err, "Log.Reset(%d)", s.snaps.index)
+		}
+	}
 	if s.log.Count() > 0 {
 		data, err := s.log.Get(s.log.LastIndex())
 		if err != nil {
